@@ -27,6 +27,7 @@ Proof.
   intros U V P zeroV n sent rg rg' u u' pv H.
   pose proof (moveNext_spec zeroV n sent rg u) as S. rewrite H in S. exact S.
 Qed.
+Print Assumptions C18_reference_panic.
 
 (* a panicking machine call leaves the generator record as it was (same pending
    continuation, same Current, same Result) and touches no other generator *)
@@ -38,6 +39,7 @@ Proof.
   intros U V P zeroV n d sent m c g rg m' pv Hg H.
   pose proof (moveNext_refines zeroV n d sent Hg) as R. rewrite H in R. destruct R as [_ R]. exact R.
 Qed.
+Print Assumptions C18_panic_leaves_state.
 
 (* with several generators in one heap, a panic of one is reported by the operation
    on that one and changes no other (C14's theorem covers panicking steps too) *)
@@ -49,6 +51,7 @@ Theorem C18_not_from_another_iterator :
     | Some (m', l) => exists rgs', rr_hist zeroV n (map (r_fresh zeroV) ss) h u = Some (rgs', world m', l)
     end.
 Proof. exact independent_generators. Qed.
+Print Assumptions C18_not_from_another_iterator.
 
 (* non-vacuity: the thunk after the first yield panics with 99: first advance fine,
    second advance panics with 99, Current still 1, retry panics again *)
